@@ -149,7 +149,7 @@ static std::string hReplace(const Req& r) {
         try {
             const XMLCh* subj = S.s[i]->c();
             XMLCh* res = S.ws[i] >= 0 ? re->replace(subj, rep.c(), (XMLSize_t)S.ws[i], (XMLSize_t)S.we[i]) : re->replace(subj, rep.c());
-            ArrayJanitor<XMLCh> jan(res);
+            ArrayJanitor<XMLCh> jan(res, XMLPlatformUtils::fgMemoryManager);
             out += "R\t"; escTo(out, res); out += "\n";
         }
         RX_CATCH(out)
